@@ -188,7 +188,7 @@ PROPERTIES = {
         'families': [{'name': 'rprint', 'gen': FR.gen_rprint, 'eval': FR.eval_rprint}],
         'rule': 'rprint family: Display of parsed ranges (table sweep + random) and of set-operation results, parsed back and compared structurally and pointwise, printed again, serde round trip; '
                 'non-trivial = multi-alternative ranges and results of set operations',
-        'explanation': 'theorems: see Props/C13.v',
+        'explanation': 'theorems: a well-formed printable range prints to a text that parses back to an ==-equal range which prints the same text; ==-equal ranges admit the same versions; printing never panics on well-formed ranges',
     },
     'C03': {
         'families': [{'name': 'sat-gate', 'gen': FT.gen_gate, 'eval': FT.eval_gate}],
